@@ -34,6 +34,25 @@ theorem C09_accept_sound (facts : String → TokenFacts) (m : MTCfg) (hwf : m.wf
       t.endpoints = (facts ts).endpoints ∧ t.tenant = r.tenant :=
   authorize_accept_sound facts m hwf now r t h
 
+/-- The hypothesis `MTCfg.wf` of the soundness theorems is what production establishes:
+`server/server.go` builds a port's verifiers with `Config.Load` + `NewJWTVerifier`, only when
+the port's auth is `Enabled()` or it has tenants, and `Validate` requires every tenant's auth
+to be enabled.  `Load` turns the secret string into an empty-but-non-nil byte slice when no
+secret is given and `NewJWTVerifier` asks for `len > 0`: the HMAC key (and with it the HS*
+methods) is configured exactly when a non-empty secret is, likewise RSA/ECDSA/JWKS. -/
+theorem C09_wiring_wf (dflt : RawCfg) (tenants : List (String × RawCfg)) (m : MTCfg)
+    (hval : ∀ p ∈ tenants, p.2.enabled = true) (h : wire dflt tenants = some (some m)) :
+    m.wf ∧ (∀ (raw : RawCfg) (c : Cfg), raw.load = some c →
+      c.hmac = raw.hmacSecret ∧ c.rsa = raw.rsaPEM ∧ c.ecdsa = raw.ecdsaPEM ∧ c.jwks = raw.jwksEndpoint) := by
+  refine ⟨wire_wf hval h, ?_⟩
+  intro raw c hl
+  unfold RawCfg.load at hl
+  split at hl
+  · cases hl
+  · simp only [Option.some.injEq] at hl
+    subst hl
+    exact ⟨rfl, rfl, rfl, rfl⟩
+
 /-- what the four claim checks say, in plain arithmetic: `now < exp` when `exp` is present,
 `nbf ≤ now` when `nbf` is present, the configured audience (if any) is one of a non-empty
 `aud` list, the configured issuer (if any) equals `iss`. -/
